@@ -306,10 +306,10 @@ class BuildError(Exception):
     pass
 
 
-def cxx_build(src, exe, hook=True, opt="-O1", extra=(), link_cds=True, timeout=900):
+def cxx_build(src, exe, hook=True, opt="-O1", extra=(), link_cds=True, timeout=900, libs=()):
     """Compile one harness TU against /repo's working tree.  Cached by content hash of everything it can see."""
     srcs = [src] if isinstance(src, str) else list(src)
-    key = file_hash([__file__]) + file_hash(srcs + glob.glob(os.path.join(VERIF, "harness", "*.h")) + glob.glob(os.path.join(VERIF, "hooks", "include", "*", "*"))) + repo_tree_hash() + repr((hook, opt, tuple(extra), link_cds))
+    key = file_hash([__file__]) + file_hash(srcs + glob.glob(os.path.join(VERIF, "harness", "*.h")) + glob.glob(os.path.join(VERIF, "hooks", "include", "*", "*"))) + repo_tree_hash() + repr((hook, opt, tuple(extra), link_cds, tuple(libs)))
     key = hashlib.sha256(key.encode()).hexdigest()[:20]
     stamp = exe + ".key"
     if os.path.exists(exe) and os.path.exists(stamp) and open(stamp).read() == key:
@@ -318,7 +318,7 @@ def cxx_build(src, exe, hook=True, opt="-O1", extra=(), link_cds=True, timeout=9
     cmd = cxx_flags(hook, opt, extra) + srcs + ["-o", exe]
     if link_cds:
         cmd.append(libcds(hook, opt))
-    cmd += ["-lpthread"]
+    cmd += list(libs) + ["-lpthread"]
     rc, out = sh(cmd, timeout=timeout)
     if rc != 0:
         raise BuildError("harness build failed (%s):\n%s" % (" ".join(srcs), out[-4000:]))
